@@ -585,3 +585,67 @@ Section RoundTrip.
       parse_items tbl imap pmap m (render bprec rassoc Ppre Pfact Ppost par wn t) = Ok (Some t).
   Proof. intros t H. apply items_sound. apply roundtrip_items. exact H. Qed.
 End RoundTrip.
+
+(* ------------------------------------------------------------------ the generated table *)
+Require Import Blots.gen.PrecTable Blots.proofs.PrattTable.
+
+Lemma impl_infix : forall o,
+  ops_get impl_table (binop_rule o) = Some (Infix (if spec_rassoc o then ARight else ALeft), spec_bprec o).
+Proof. destruct o; vm_compute; reflexivity. Qed.
+
+Lemma spec_level_assoc : forall o1 o2, spec_bprec o1 = spec_bprec o2 -> spec_rassoc o1 = spec_rassoc o2.
+Proof. destruct o1, o2; vm_compute; intro H; try reflexivity; discriminate H. Qed.
+
+Lemma spec_prec_pos : forall o, 0 < spec_bprec o.
+Proof. intro o. unfold spec_bprec, pest_scale. lia. Qed.
+Lemma spec_prec_lt_pre : forall o, spec_bprec o < spec_Ppre.
+Proof. destruct o; vm_compute; repeat constructor. Qed.
+
+(* the parser of the crate: impl_table (built from the generated rows) with the generated arms *)
+Definition parse_impl (fuel : nat) (its : list item) : outcome tres :=
+  parse_items impl_table infix_map prefix_map fuel its.
+
+Theorem pratt_spec_roundtrip_all : forall par wn t, wf t = true ->
+  exists n, forall m, n <= m -> parse_impl m (spec_render par wn t) = Ok (Some t).
+Proof.
+  intros par wn t H. unfold parse_impl, spec_render.
+  apply roundtrip_fun; try exact H; try (vm_compute; reflexivity).
+  - exact impl_infix.
+  - exact infix_map_binop_rule.
+  - exact spec_prec_pos.
+  - exact spec_prec_lt_pre.
+  - vm_compute. repeat constructor.
+  - vm_compute. repeat constructor.
+  - exact spec_level_assoc.
+  - exact builtin_names_roundtrip.
+Qed.
+
+(* the minimally and the fully parenthesised rendering under spec_table both recover t; hence they
+   parse identically *)
+Theorem pratt_spec_roundtrip : forall t, wf t = true ->
+  exists n, forall m, n <= m ->
+    parse_impl m (flat_min t) = Ok (Some t) /\ parse_impl m (flat_full t) = Ok (Some t).
+Proof.
+  intros t H.
+  destruct (pratt_spec_roundtrip_all (fun _ => 0) (fun _ => false) t H) as [n1 H1].
+  destruct (pratt_spec_roundtrip_all (fun _ => 1) (fun _ => false) t H) as [n2 H2].
+  exists (n1 + n2). intros m Hm. split; [apply H1 | apply H2]; lia.
+Qed.
+
+Corollary min_full_parse_identically : forall t, wf t = true ->
+  exists n, forall m, n <= m -> parse_impl m (flat_min t) = parse_impl m (flat_full t).
+Proof.
+  intros t H. destruct (pratt_spec_roundtrip t H) as [n Hn]. exists n. intros m Hm.
+  destruct (Hn m Hm) as [A B]. congruence.
+Qed.
+
+(* redundant parentheses and the spelling of `not` never matter *)
+Corollary renderings_parse_identically : forall par1 wn1 par2 wn2 t, wf t = true ->
+  exists n, forall m, n <= m ->
+    parse_impl m (spec_render par1 wn1 t) = parse_impl m (spec_render par2 wn2 t).
+Proof.
+  intros par1 wn1 par2 wn2 t H.
+  destruct (pratt_spec_roundtrip_all par1 wn1 t H) as [n1 H1].
+  destruct (pratt_spec_roundtrip_all par2 wn2 t H) as [n2 H2].
+  exists (n1 + n2). intros m Hm. rewrite H1, H2 by lia. reflexivity.
+Qed.
